@@ -226,14 +226,18 @@ Fixpoint try_lock (fuel : nat) (ovr wt : bool) : prog ares :=
     | _ => Ret AOther end).
 
 (* ---------- threads and global state ---------- *)
-Inductive api := TryLock | Lock | LockWT | Unlock.
+(* LockWTX = a LockWithTimeout call whose deadline has fired while its action (Lock) is still running:
+   RunActionWithTimeoutAndCancelStore (parallelisation.go:207-212) has taken the timeout branch, cancelled the action's
+   context and waits for the action; whatever the current TryLock round returns, the call reports the timeout — and
+   performs no further backend operation. *)
+Inductive api := TryLock | Lock | LockWT | Unlock | LockWTX.
 Definition is_acquire (a : api) : bool := match a with Unlock => false | _ => true end.
 
 Definition fuel0 := 50.
 Definition prog_of (a : api) (ovr : bool) : prog ares :=
   match a with
   | TryLock | Lock => try_lock fuel0 ovr false
-  | LockWT => try_lock fuel0 ovr true
+  | LockWT | LockWTX => try_lock fuel0 ovr true
   | Unlock => unlock
   end.
 
@@ -308,7 +312,8 @@ Record obs := { o_op : opc; o_res : resc; o_ret : option ares }.
 Inductive item :=
 | ICall (c : nat) (a : api)                 (* contender c starts an API call *)
 | IStep (c : nat) (hb : option nat) (stale : bool)   (* one backend operation of c's API thread / k-th heartbeat writer *)
-| IKill (c : nat).                          (* contender c dies while holding (its heartbeat stops) *)
+| IKill (c : nat)                           (* contender c dies while holding (its heartbeat stops) *)
+| IDeadline (c : nat).                      (* the deadline of c's LockWithTimeout call fires (at any point of the call) *)
 
 Definition cancel_all (l : list hbst) : list hbst :=
   map (fun h => {| pc := pc h; cancelled := true |}) l.
@@ -316,6 +321,10 @@ Definition cancel_all (l : list hbst) : list hbst :=
 (* what happens when the program of an API call reaches [Ret v] *)
 Definition finish (x : cst) (a : api) (v : ares) : cst * option ares :=
   match a, v with
+  | LockWTX, _ =>
+      (* timed out: the result of the action is discarded (also a success: the directory then stays behind, its
+         heartbeat writer finds its context cancelled and never writes; the caller does not hold) *)
+      ({| ovr := ovr x; cur := None; holds := holds x; alive := alive x; eng := eng x; hbs := hbs x; gh := gh x |}, Some ACancelled)
   | Unlock, _ => ({| ovr := ovr x; cur := None; holds := holds x; alive := alive x; eng := eng x; hbs := hbs x; gh := gh x |}, Some v)
   | _, AOk => ({| ovr := ovr x; cur := None; holds := true; alive := alive x; eng := eng x;
                  hbs := hbs x ++ [{| pc := HbOpen; cancelled := false |}]; gh := gh x |}, Some AOk)
@@ -357,6 +366,18 @@ Definition exec (s : state) (it : item) : option (state * option obs) :=
               Some ({| fs := fs s; ngen := ngen s; bad := bad s;
                        cs := set_nth (cs s) c {| ovr := ovr x; cur := None; holds := holds x; alive := false; eng := eng x; hbs := hbs x; gh := gh x |} |}, None)
               else None
+          end
+      | None => None
+      end
+  | IDeadline c =>
+      match nth_error (cs s) c with
+      | Some x =>
+          match cur x with
+          | Some (LockWT, p) =>
+              Some ({| fs := fs s; ngen := ngen s; bad := bad s;
+                       cs := set_nth (cs s) c {| ovr := ovr x; cur := Some (LockWTX, p); holds := holds x; alive := alive x;
+                                                 eng := eng x; hbs := hbs x; gh := gh x |} |}, None)
+          | _ => None
           end
       | None => None
       end
@@ -476,6 +497,7 @@ Definition check_case0 (k : case) : bool :=
 Inductive entry :=
 | C_ (c a : nat)                         (* call: a = 0 TryLock, 1 Lock, 2 LockWithTimeout, 3 Unlock *)
 | K_ (c : nat)                           (* kill *)
+| D_ (c : nat)                           (* the deadline of c's LockWithTimeout fires *)
 | S_ (c hb st o r t : nat).              (* step: hb = 0 API thread, k+1 heartbeat writer k; st = staleness verdict;
                                             o, r, t = observed operation, result class, return kind (0 = no return) *)
 
@@ -498,6 +520,7 @@ Definition item_of (e : entry) : item :=
   match e with
   | C_ c a => ICall c (api_of a)
   | K_ c => IKill c
+  | D_ c => IDeadline c
   | S_ c hb st _ _ _ => IStep c (match hb with 0 => None | S k => Some k end) (match st with 0 => false | _ => true end)
   end.
 Definition obs_of (e : entry) : option obs :=
